@@ -20,6 +20,7 @@ FILE_STATES = {
     "newline": b"abcd1234\n", "empty": b"", "nine": b"abcd12345", "symbol": b"abcd123!",
 }
 DEFAULT_PIN = b"1234abcd"
+NOMINAL = None
 
 
 def policy_ok(pin):
@@ -219,8 +220,14 @@ class C10(Check):
             for fstate in ("absent", "valid"):
                 for force in (False, True):
                     for v1 in (False, True):
-                        cs.append({"kind": "reconnect", "platform": platform, "file": fstate,
-                                   "force": force, "v1": v1})
+                        # the request that meets the pending reconnection (and with it the PIN change):
+                        # every command has its own handler around ensure_connection
+                        cmds = (("v1-getPubKey", "v1-sign") if v1 else
+                                ("getPubKey", "sign-hash", "sign-legacy", "advance-nobrothers", "updateAncestor",
+                                 "reset", "state", "params", "signerHeartbeat", "uiHeartbeat"))
+                        for cmd in cmds:
+                            cs.append({"kind": "reconnect", "platform": platform, "file": fstate,
+                                       "force": force, "v1": v1, "cmd": cmd})
         return cs
 
     # ------------------------------------------------------------------
@@ -409,6 +416,10 @@ class C10(Check):
 
     # -- PIN change attempted during a reconnection (manager already serving) -------------
     def reconnect_driver(self, case):
+        global NOMINAL
+        if NOMINAL is None:
+            from .. import dialogues
+            NOMINAL = dialogues.nominal_requests()
         import json
         import ledger.pin as LPIN
         import mgr.runner as RUN
@@ -440,8 +451,9 @@ class C10(Check):
 
             def on_serve(server):
                 out["served"] = True
-                req = {"command": "getPubKey", "version": 1 if case["v1"] else 5,
-                       "keyId": "m/44'/137'/0'/0/0"}
+                first = {"command": "getPubKey", "version": 1 if case["v1"] else 5,
+                         "keyId": "m/44'/137'/0'/0/0"}
+                follow = NOMINAL[case.get("cmd") or ("v1-getPubKey" if case["v1"] else "getPubKey")]
                 for step in range(4):
                     if step == 0:
                         # the link fails on this request and the device comes back locked
@@ -449,7 +461,7 @@ class C10(Check):
                         w.inject = lambda world, i, apdu: ("read",) if i == base else None
                     else:
                         w.inject = None
-                    o = fakeserver.serve_line(server, json.dumps(req).encode())
+                    o = fakeserver.serve_line(server, json.dumps(first if step == 0 else follow).encode())
                     if step == 0:
                         dev.power_cycle()          # the device comes back locked, in the bootloader
                     out["replies"].append((o.reply, o.exc))
